@@ -620,6 +620,7 @@ func runC10(c *Check) {
 		c.ruleRepoWritesUnderLock("R11", a)
 		c.ruleTruncatedFileRewrittenInPlace("R12", a)
 		c.ruleCursorMovesAfterRevert("R13")
+		c.ruleForkAlwaysFollowed("R14")
 	}
 
 	if fn := c.Fn("R2", "storage.(*BlockRepository).Add"); fn != nil {
